@@ -16,3 +16,4 @@ from . import ext_serialize  # noqa: E402,F401  (C19: pickle / file / orbax rest
 from . import ext_sched  # noqa: E402,F401  (C11: RecordEpisodeStatistics queues, mutable per-task arrays, Generator.choice w/o replacement, sets of task ids)
 from . import ext_loops  # noqa: E402,F401  (C01/C11: jnp.empty, collections.deque as a window over an append-only log)
 from . import ext_vecenv  # noqa: E402,F401  (C01/C11: gymnasium vector environments with per-environment episode state and autoreset modes)
+from . import ext_choice  # noqa: E402,F401  (C02/C08: Generator.choice over a python list of task ids with a call ghost; multi-task replay buffer)
